@@ -4,6 +4,7 @@ import (
 	"encoding/json"
 	"fmt"
 	"math/rand"
+	"strings"
 	"sync"
 
 	"github.com/atlassian/escalator/pkg/cloudprovider"
@@ -295,9 +296,10 @@ func genAwsSpecs(prop, tier string, rng *rand.Rand) []awsSpec {
 						lists = append(lists, l)
 					}
 					for _, l := range lists {
-						fails := [][]int{nil}
+						fails := [][]string{nil}
 						for k := 0; k < len(l) && k < 4; k++ {
-							fails = append(fails, []int{k})
+							parts := strings.Split(l[k].PID, "/")
+							fails = append(fails, []string{parts[len(parts)-1]})
 						}
 						for _, f := range fails {
 							o := okOrc
